@@ -198,6 +198,12 @@ def has_neg_step(index_enc):
     return any(isinstance(e, dict) and "slice" in e and e["slice"][2] is not None and e["slice"][2] < 0 for e in index_enc["tuple"])
 
 
+def has_int(index_enc):
+    """An integer element in an encoded basic index (such an index can make an operand of the indexed
+    expression 0-d when it is pushed down, even if the result itself keeps a dimension)."""
+    return any(isinstance(e, int) and not isinstance(e, bool) for e in index_enc["tuple"])
+
+
 def n_blocks(coll):
     try:
         return max(1, int(np.prod([len(c) for c in coll.chunks])))
@@ -661,7 +667,7 @@ class Interp:
                 r0 = m[idx]
             except IndexError as e:
                 raise AssertionError(f"invalid slice: {e}")
-            if v.uwhere and np.ndim(r0) == 0:
+            if v.uwhere and (np.ndim(r0) == 0 or has_int(step["index"])):
                 self.tags.add(KF_WHERE_0D)
             # NumPy hands out the float64 constant np.ma.masked for a masked 0-d element: not a usable reference
             assert not (v.masked and np.ndim(r0) == 0), "0-d selection of a masked array"
@@ -1202,7 +1208,7 @@ def gen_derive(D_, it, family="any"):
         step["index"] = _enc_index(gidx.gen_basic_index(D_, m.shape, allow_none=False))
         if v.masked and np.ndim(m[gidx.dec(step["index"])]) == 0:
             step["index"] = {"tuple": []}
-        if v.uwhere and np.ndim(m[gidx.dec(step["index"])]) == 0 and _steer(KF_WHERE_0D):
+        if v.uwhere and (np.ndim(m[gidx.dec(step["index"])]) == 0 or has_int(step["index"])) and _steer(KF_WHERE_0D):
             it.excluded.append(KF_WHERE_0D)
             step["index"] = {"tuple": []}
         if has_neg_step(step["index"]) and has_zero_chunk(v.coll) and _steer(KF_NEG_ZERO_CHUNK):
@@ -2036,6 +2042,31 @@ def _region_pred(fid):
 
 
 REGIONS = {fid: _region_pred(fid) for fid in REGION_DOC}
+
+
+def region_chunk_sizes_of_empty_slice_after_mask_assign(case):
+    """compute_chunk_sizes() on an EMPTY basic slice of a collection that was assigned through a full-shape dask
+    mask (structural, from the step list: a dask-mask setitem, a derive-slice that selects nothing, and a
+    compute_chunk_sizes step)."""
+    steps = case.get("steps") or []
+    shapes = [tuple(s["shape"]) for s in steps if s.get("op") == "new"]
+    if not shapes or not any(s.get("op") == "compute_chunk_sizes" for s in steps):
+        return False
+    if not any(s.get("op") == "setitem" and "dfull" in json.dumps(s.get("key")) for s in steps):
+        return False
+    for s in steps:
+        if s.get("op") == "derive" and s.get("kind") == "slice":
+            for shp in shapes:
+                try:
+                    if np.empty(shp)[gidx.dec(s["index"])].size == 0:
+                        return True
+                except Exception:
+                    continue
+    return False
+
+
+KF_CCS_EMPTY = "KF-compute-chunk-sizes-empty-slice-after-mask-assign"
+REGIONS[KF_CCS_EMPTY] = region_chunk_sizes_of_empty_slice_after_mask_assign
 
 
 def _register_regions():
